@@ -33,17 +33,20 @@ def _load(modnames):
 
 
 def _w_sym(args):
-    modnames, key, case, timeout_ms = args
+    modnames, key, case, timeout_ms = args[:4]
     try:
         api = _load(modnames)
+        from pyvc import interp as _im
+        _im.EXPECTED_LOOP_HEADERS.clear()
+        _im.EXPECTED_LOOP_HEADERS.update(args[4] if len(args) > 4 else {})
         h = api.HARNESSES[key]
         r = api.run_sym(h, case, timeout_ms=timeout_ms)
         return dict(key=key, case=case, obligs=r.obligs, undecided=r.undecided, paths=r.paths,
                     completed=r.completed, cover_ok=r.cover_ok, secs=r.secs, functions=r.functions, facts=r.facts,
-                    lemmas=r.lemmas, crash=None)
+                    lemmas=r.lemmas, crash=None, loop_headers=getattr(r, "loop_headers", {}))
     except Exception:
         return dict(key=key, case=case, obligs=[], undecided=[], paths=0, completed=0, cover_ok=False, secs=0,
-                    functions={}, facts=0, lemmas=[], crash=traceback.format_exc()[-2000:])
+                    functions={}, facts=0, lemmas=[], crash=traceback.format_exc()[-2000:], loop_headers={})
 
 
 _LEMMAS_SEEN = set()
@@ -132,6 +135,15 @@ def load_baseline(prop):
         return set(json.load(f)["discharged"])
 
 
+def load_loop_headers(prop):
+    """headers of the loops that carry loop contracts, as they were on the tree the contracts were written for"""
+    p = os.path.join(VERIF, "baseline", "%s.json" % prop)
+    if not os.path.exists(p):
+        return {}
+    with open(p) as f:
+        return json.load(f).get("loop_headers", {})
+
+
 def write_replay(prop, name, payload):
     d = os.path.join(VERIF, "replays")
     os.makedirs(d, exist_ok=True)
@@ -158,9 +170,10 @@ def run_pyvc(cfg, rep, tier):
     keys = [k for k in api.HARNESSES if k[0] == cfg.PROP] + [tuple(k) for k in getattr(cfg, "EXTRA_HARNESSES", [])]
     timeout_ms = 30000 if tier == "quick" else 120000
     tasks = []
+    expected_headers = load_loop_headers(cfg.PROP)
     for k in keys:
         for case in api.HARNESSES[k].cases:
-            tasks.append((modnames, k, case, timeout_ms))
+            tasks.append((modnames, k, case, timeout_ms, expected_headers))
     results = []
     t0 = time.time()
     with ProcessPoolExecutor(NPROC) as ex:
@@ -171,7 +184,7 @@ def run_pyvc(cfg, rep, tier):
     for i, r in enumerate(results):
         if r["crash"] is None and any(o["status"] == "unknown" for o in r["obligs"]):
             with ProcessPoolExecutor(1) as ex1:
-                r2 = list(ex1.map(_w_sym, [(modnames, r["key"], r["case"], timeout_ms * 5)]))[0]
+                r2 = list(ex1.map(_w_sym, [(modnames, r["key"], r["case"], timeout_ms * 5, expected_headers)]))[0]
             if r2["crash"] is None:
                 r2["secs"] += r["secs"]
                 results[i] = r2
@@ -233,6 +246,14 @@ def run_pyvc(cfg, rep, tier):
             rep.undecide("lemma %s is not fully proved but is used by %s" % (l, sorted(users)))
     baseline = load_baseline(cfg.PROP)
     rep.proved_names = sorted(n for n, e in by_name.items() if e["status"] == "proved")
+    rep.loop_headers = {}
+    for r in results:
+        rep.loop_headers.update(r.get("loop_headers") or {})
+    # obligations of the baseline that this run did not produce at all (the contract text no longer reaches them:
+    # renamed variable, moved statement, harness not applicable): undecided, never silently dropped
+    absent = sorted(n for n in baseline if n not in by_name)
+    if absent:
+        rep.undecide("%d obligation(s) discharged on the pinned tree were not produced on this code (e.g. %s)" % (len(absent), absent[0]))
     n_ob = len(by_name)
     n_proved = sum(1 for e in by_name.values() if e["status"] == "proved")
     # ---- refuted obligations: replay natively
@@ -250,6 +271,18 @@ def run_pyvc(cfg, rep, tier):
                            how="./check %s --replay <this file>" % cfg.PROP)
             short = name.split("/", 1)[1] if "/" in name else name
             short = short.split("[")[0] + "/" + short.split("]/")[-1] if "]/" in short else short
+            native_ran = False
+            if not confirmed:
+                # did the native replay evaluate the contract at all (harness has a native mode) and pass?
+                for m in e["models"][:2]:
+                    st, log = api.run_concrete(h, e["case"], m or {}, "native")
+                    if st == "ok" and any(ok is True for _, ok in log):
+                        native_ran = True
+            imprecise = (e.get("detail") or "").startswith("imprecise:")
+            if not confirmed and (native_ran or imprecise):
+                why = ("the counter-model passes the same contract natively" if native_ran else e["detail"])
+                rep.undecide("%s: refuted by the solver but not a reproducible failure (%s)" % (name, why[:200]))
+                continue
             if confirmed:
                 payload.update(inputs=confirmed[0], native_status=confirmed[1],
                                native_log=[x for x in confirmed[2] if not x[1]][:10], replayed=True)
@@ -439,7 +472,8 @@ def finish(cfg, rep):
     if getattr(rep, "proved_names", None) is not None:
         os.makedirs(os.path.join(VERIF, "scratch"), exist_ok=True)
         with open(os.path.join(VERIF, "scratch", "proved_%s.json" % cfg.PROP), "w") as f:
-            json.dump(dict(property=cfg.PROP, tree=repo_root(), head=git_head(repo_root()), discharged=rep.proved_names), f)
+            json.dump(dict(property=cfg.PROP, tree=repo_root(), head=git_head(repo_root()), discharged=rep.proved_names,
+                           loop_headers=getattr(rep, "loop_headers", {})), f)
     os.makedirs(os.path.join(VERIF, "evidence"), exist_ok=True)
     with open(os.path.join(VERIF, "evidence", "%s.json" % cfg.PROP), "w") as f:
         json.dump(ev, f, indent=1, default=str)
